@@ -212,7 +212,7 @@ def pipe_part(ctx, drv, prop):
         if b.ok or b.violated != want:
             raise vf.MachineryError("sensitivity run %s did not report %s (got %s)" % (cfg, want, b.violated))
     import ppaths
-    n = 2000 if ctx.quick else 30000
+    n = (2000 if prop == "C05" else 900) if ctx.quick else 30000
     total_steps = 0
     for cfg, maxid, maxstream in (("PipeStepReplay", 2, 2), ("PipeStepReplay_s1", 1, 1)):
         states, init, paths = ppaths.merge(ppaths.simulate_many(n if maxstream > 1 else n // 3, 80, ctx.seed, cfg=cfg, timeout=3000))
@@ -259,5 +259,5 @@ def pipe_part(ctx, drv, prop):
                           % (e.get("step"), "; ".join(e.get("diff", ["exchanges did not end after cancel + Close"])),
                              json.dumps(e.get("prefix", []))[:1500]),
                           artefact={"event": e, "paths_file": f})
-    if total_steps < 2000:
+    if total_steps < 1500:
         raise vf.MachineryError("pipe replay executed too few steps (%d)" % total_steps)
